@@ -13,5 +13,6 @@ CONSTANTS
   PathSet = {"archive"}
 INVARIANT LookupIsUnionInv
 INVARIANT TableIsUnion
+INVARIANT LookupBudgetsInv
 CONSTRAINT EmitHist
 CHECK_DEADLOCK FALSE
